@@ -181,6 +181,21 @@ def gen_not_reagg(rng, k):
     return case
 
 
+def gen_second_time(rng):
+    """targeted family: a SECOND time dimension (t2) listed among the rollup's plain dimensions and requested at a granularity, alone or next to the rollup's own
+    time dimension: answered from the rollup only with t2 truncated to the requested granularity, under the requested column name"""
+    case = gen_friendly(rng)
+    ms = rng.sample(["rev", "cntv", "mx", "mn", "cnt"], rng.randint(1, 3))
+    case["preaggs"] = [dict(name="r0", measures=ms, dimensions=["t2"] + (["g1"] if rng.random() < 0.4 else []), time_dimension="ts", granularity=rng.choice(["day", "day", "hour"]))]
+    case["mets"] = list(ms[:2])
+    case["dims"] = ["t2__" + rng.choice(["day", "week", "month", "year"])] + rng.choice([[], [], ["ts__month"], ["ts__day"], ["g1"]])
+    if "g1" in case["dims"] and "g1" not in case["preaggs"][0]["dimensions"]:
+        case["preaggs"][0]["dimensions"].append("g1")
+    rng.shuffle(case["dims"])
+    case["filters"] = []
+    return case
+
+
 def gen_candidates(rng):
     """targeted family: SEVERAL rollups that are tried in turn, the earlier ones rejected for one reason (a missing measure, a granularity that is too
     coarse, a missing filter column) and a later one lacking something else the query needs (the time dimension, a dimension): what one candidate
@@ -231,7 +246,8 @@ def build(case):
         L.conn.executemany("insert into ev values (?,?,?,?,?,?)", [tuple(r) for r in case["rows"]])
     pas = [PreAggregation(**p) for p in case["preaggs"]]
     m = Model(name="ev", table="ev", primary_key="id",
-              dimensions=[Dimension(name="ts", type="time", sql="ts", granularity="hour"), Dimension(name="g1", type="categorical"), Dimension(name="g2", type="categorical")],
+              dimensions=[Dimension(name="ts", type="time", sql="ts", granularity="hour"), Dimension(name="g1", type="categorical"), Dimension(name="g2", type="categorical"),
+                          Dimension(name="t2", type="time", sql="ts + INTERVAL 11 DAY", granularity="hour")],      # a second time dimension (shipped next to created)
               metrics=[Metric(name=n, agg=a, sql=e, filters=f) for n, (a, e, f) in MEAS.items()], pre_aggregations=pas)
     L.add_model(m)
     mat_err = {}
@@ -269,7 +285,8 @@ def route_facts(case, used):
     pa = [p for p in case["preaggs"] if p["name"] == used][0]
     aggs = [(MEAS[mn][0], bool(MEAS[mn][2])) for mn in case["mets"]]
     plain = [d for d in case["dims"] if not d.startswith("ts")]
-    dims_ok = all(d in pa["dimensions"] for d in plain) and (not any(d.startswith("ts") for d in case["dims"]) or pa["time_dimension"] == "ts")
+    # (a second time dimension kept as a plain rollup dimension can be truncated to any granularity from its stored values: its name decides)
+    dims_ok = all(d.split("__")[0] in pa["dimensions"] for d in plain) and (not any(d.startswith("ts") for d in case["dims"]) or pa["time_dimension"] == "ts")
     cols = [c for f in case["filters"] for c in FCOLS[f][0]]
     filt_ok = all((c in pa["dimensions"]) or (c == "ts" and pa["time_dimension"] == "ts") for c in cols)
     raw_time = any(FCOLS[f][1] for f in case["filters"])
@@ -453,7 +470,7 @@ def run(c):
     cases = corpus_cases() + [(gen_friendly(c.rng) if k % 2 else gen_case(c.rng)) for k in range(n)] + [gen_candidates(c.rng) for _ in range(max(12, n // 10))]
     cases = [x for _ in range(max(8, n // 30)) for x in gen_sibling_pair(c.rng)] + cases
     cases = cases + [gen_two_grans(c.rng) for _ in range(max(16, n // 12))] + [gen_literal_case(c.rng) for _ in range(max(16, n // 12))]
-    cases = cases + [gen_not_reagg(c.rng, k) for k in range(24 if c.tier == "quick" else 48)]
+    cases = cases + [gen_not_reagg(c.rng, k) for k in range(24 if c.tier == "quick" else 48)] + [gen_second_time(c.rng) for _ in range(max(12, n // 20))]
     results, terms, tindex = [], [], []
     stats = {"routed": 0, "not_routed": 0, "routed_equal": 0, "model_compared": 0, "exact_routes": 0, "inexact_routes": 0, "materialisation_errors": 0}
     for i, case in enumerate(cases):
